@@ -148,6 +148,42 @@ def check_case(lines, snip, t, pre, edit_t, base_exec):
     return probs
 
 
+def check_double(lines, first, t1, dt, pause):
+    """Two injections whose lives overlap: `first` (multi-tick) at t1, then 'Mark: inj2' at t1+dt; optionally a user Pause one
+    tick after the first injection, released 7 ticks later.  Each snippet must run exactly once."""
+    sched = [(t1, ("inject", SNIPPETS[first])), (t1 + dt, ("inject", "Mark: inj2"))]
+    if pause:
+        sched += [(t1 + 1, ("user", "Pause")), (t1 + 8, ("user", "Unpause"))]
+    sched.sort(key=lambda x: x[0])
+    run, recs = drive(lines, sched)
+    probs = []
+    tag = f"{first}+mark:dt={'same-tick' if dt == 0 else 'later'}{':across-Pause' if pause else ''}"
+    for ob in run.obs:
+        if "tick_exception" in ob:
+            probs.append(("C14:tick-raised", ob["tick_exception"]))
+    if any(r.get("kind") == "inject" and not r["accepted"] for r in recs):
+        probs.append((f"C14:injection-rejected:{tag}", f"{[r.get('error') for r in recs]}"))
+    elif run.error_events:
+        probs.append((f"C14:method-error-after-injection:{tag}", f"{run.error_events[0]}"))
+    else:
+        n2 = run.marks().count("inj2")
+        if n2 != 1:
+            probs.append((f"C14:second-injection-{'lost' if n2 == 0 else 'repeated'}:{tag}",
+                          f"'{SNIPPETS[first]}' injected at tick {t1}, 'Mark: inj2' at tick {t1 + dt}{' with a Pause in between' if pause else ''}: "
+                          f"inj2 appeared {n2} times (marks {run.marks()})"))
+        if "inj" in SNIPPETS[first] and run.marks().count("inj") != 1:
+            probs.append((f"C14:first-injection-mark-count:{tag}", f"marks {run.marks()}"))
+        if first == "long" and not any(c.strip().startswith("Long") for _, c in lines):
+            by_iid = collections.defaultdict(list)
+            for e in run.cmd_events:
+                if e[1] == "Long":
+                    by_iid[e[3]].append(e[2])
+            if [ph for ph in by_iid.values()] != [["init", "exec", "exec", "exec", "finalize"]]:
+                probs.append((f"C14:injected-command-not-completed:{tag}", f"life cycles {dict(by_iid)}"))
+    run.cleanup()
+    return probs
+
+
 def explore_program(item):
     forest, with_edit = item
     lines = pgen.to_lines(forest)
@@ -175,6 +211,16 @@ def explore_program(item):
                         stats["nontrivial"] += 1
                     for sig, what in check_case(lines, snip, t, pre, edit_t, base_exec):
                         out.append((sig, what, {"lines": [c for _, c in lines], "snippet": snip, "tick": t, "pre": pre, "edit_tick": edit_t}))
+    if len(lines) <= 2:
+        for first in ("long", "wait-mark"):
+            for t1 in range(1, min(last, 6) + 1):
+                for dt in range(0, 6):
+                    for pause in (False, True):
+                        stats["exec"] += 1
+                        stats["double"] += 1
+                        stats["nontrivial"] += 1
+                        for sig, what in check_double(lines, first, t1, dt, pause):
+                            out.append((sig, what, {"lines": [c for _, c in lines], "double": [first, t1, dt, pause]}))
     seen, uniq = set(), []
     for s, w, c in out:
         if s not in seen:
@@ -209,15 +255,20 @@ def run(ctx):
         raise HarnessError("vacuous")
     ctx.coverage.update(
         states=tot["exec"], transitions=tot["exec"] * HORIZON, traces_validated_against_impl=tot["exec"],
-        evaluations=tot["exec"], distinct_nontrivial=tot["nontrivial"], programs=len(items), snippets=list(SNIPPETS.values()),
+        evaluations=tot["exec"], distinct_nontrivial=tot["nontrivial"], programs=len(items), double_injections=tot["double"], snippets=list(SNIPPETS.values()),
         rule="one execution per (program, snippet, injection tick, none|Pause|Hold around the injection, none|edit tick); "
-             "non-trivial = injected while paused/on hold or followed by a live edit",
+             "non-trivial = injected while paused/on hold or followed by a live edit; plus, for programs of <= 2 lines, two "
+             "overlapping injections (multi-tick snippet, then a Mark 0..5 ticks later, with and without a Pause in between)",
         samples=[pgen.render(items[0][0]), pgen.render(items[len(items) // 2][0]), pgen.render(items[-1][0])],
         exhaustive=True, horizon=HORIZON)
 
 
 def replay(data):
     lines = [(f"L{i}", c) for i, c in enumerate(data["lines"])]
+    if "double" in data:
+        first, t1, dt, pause = data["double"]
+        print("program:", data["lines"], "first injection:", SNIPPETS[first], "at", t1, "second 'Mark: inj2' at", t1 + dt, "pause:", pause)
+        return check_double(lines, first, t1, dt, pause)
     base, _ = drive(lines, ())
     probs = check_case(lines, data["snippet"], data["tick"], data["pre"], data["edit_tick"], base.method_state()["executed"])
     print("program:", data["lines"], "snippet:", SNIPPETS[data["snippet"]], "tick:", data["tick"], "pre:", data["pre"], "edit:", data["edit_tick"])
